@@ -120,3 +120,28 @@ Theorem C03_cookie_lowbits_refuted :
     c' <> createCookie H ts seq 0 /\ isCookieValid H ts c' seq = Some 1.
 Proof. exact cookie_lowbits_refuted. Qed.
 Print Assumptions C03_cookie_lowbits_refuted.
+
+(* "a reset is never answered", established connection (Model/Tcp.v; finding F16, repaired):
+   no frame is emitted in the step that processes a RST segment, acceptable or not, when the
+   endpoint owes no acknowledgement; an acceptable one aborts the connection.  The pre-repair
+   code answered it with RST|ACK (witness). *)
+From NP Require Model.Tcp Proofs.TcpRstP.
+
+Theorem C03_established_rst_not_answered : forall t sg r,
+  Tcp.has (Tcp.s_flags sg) Tcp.fRst = true -> Tcp.rcvNxt (Tcp.RC t) = Tcp.maxSentAck (Tcp.SN t) ->
+  Tcp.out (fst (Tcp.step t (Tcp.ESeg sg r))) = [].
+Proof. exact TcpRstP.established_rst_not_answered. Qed.
+Print Assumptions C03_established_rst_not_answered.
+
+Theorem C03_established_rst_aborts : forall t sg r,
+  Tcp.estate t = Tcp.stConnected -> Tcp.has (Tcp.s_flags sg) Tcp.fRst = true ->
+  Tcp.acceptable (Tcp.RC t) (Tcp.s_seq sg) 0 = true ->
+  Tcp.estate (fst (Tcp.step t (Tcp.ESeg sg r))) = Tcp.stError.
+Proof. exact TcpRstP.established_rst_aborts. Qed.
+Print Assumptions C03_established_rst_aborts.
+
+Theorem C03_rst_answered_old_refuted :
+  exists t sg, Tcp.estate t = Tcp.stConnected /\ Tcp.out t = [] /\ Tcp.has (Tcp.s_flags sg) Tcp.fRst = true /\
+    exists f, Tcp.out (TcpRstP.handleSegment_rst_old t sg) = [f] /\ Tcp.has (Tcp.f_flags f) Tcp.fRst = true.
+Proof. exact TcpRstP.rst_answered_old_refuted. Qed.
+Print Assumptions C03_rst_answered_old_refuted.
